@@ -74,7 +74,7 @@ PROPS = {
                 pending=['`fix` assembled with div_correct into one equation for the normal exponent range (the two halves — sticky rounding at any position, at least one digit rounded — are proved)']),
     'C09': dict(obligations=lambda: P('SqProps.C09') + SHAPE_OPS,
                 slices=['probe'], monitors=['c09'],
-                pending=['big-step corollary: the log of a strict node is the concatenation of its children\'s logs']),
+                pending=['big-step statements for slices, subscripts, unary nodes and statement lists (proved with the frame lemma for strict binary operators, and / or, if-else, call arguments and dict literals of any size: strict_bin_big_step, args_big_step, dict_big_step, …)']),
     'C10': dict(obligations=lambda: P('SqProps.C10'),
                 slices=['scope', 'session_scope'], monitors=['c10'],
                 pending=['lambda-scope writes never reach an outer binding of the same name: heap-level frame lemma for writeTop over whole runs (one-transition lemma writes_go_to_top proved; scope_balanced proved over all runs)']),
